@@ -141,7 +141,7 @@ Proof.
         { apply (si_mem s I) in Hm. destruct Hm as [k Hk]. exists k. rewrite clk_ins, clk_rm.
           destruct (N.eqb_spec k id) as [->|Hn]; [|exact Hk]. exfalso. apply Hg. congruence. }
         exists id. rewrite clk_ins, N.eqb_refl. reflexivity.
-      * intros [k Hk]. rewrite clk_ins, clk_rm in Hk. destruct (N.eqb_spec k id) as [->|Hn].
+      * intros [k Hk]. rewrite clk_ins, clk_rm in Hk. revert Hk. destruct (N.eqb_spec k id) as [->|Hn]; intros Hk.
         { right. left. congruence. }
         left. split; [apply (si_mem s I); exists k; exact Hk|].
         intros Hg. apply Hn. apply (si_inj s I k id c c0 Hk E0 Hg).
@@ -171,7 +171,7 @@ Proof.
         { apply (si_mem s I) in Hm. destruct Hm as [k Hk]. exists k. rewrite clk_ins.
           destruct (N.eqb_spec k id) as [->|Hn]; [congruence|exact Hk]. }
         exists id. rewrite clk_ins, N.eqb_refl. reflexivity.
-      * intros [k Hk]. rewrite clk_ins in Hk. destruct (N.eqb_spec k id) as [->|Hn].
+      * intros [k Hk]. rewrite clk_ins in Hk. revert Hk. destruct (N.eqb_spec k id) as [->|Hn]; intros Hk.
         { right. left. congruence. }
         left. apply (si_mem s I). exists k; exact Hk.
     + intros g H. apply (si_ended s I) in H. lia.
@@ -183,7 +183,7 @@ Proof.
   intros I Hres. unfold next. cbn [step]. rewrite Hres. rewrite stop_id_eq.
   destruct (clk id (clients s)) as [c0|] eqn:E0; cbn [fst snd set_maps clients rules members ended nextgen].
   - destruct (si_gen s I id c0 E0) as [Hg0 He0].
-    constructor; cbn [clients rules members ended nextgen].
+    constructor; cbn [set_maps clients rules members ended nextgen].
     + apply nodup_remove. apply (si_nd s I).
     + apply nodup_remove. apply (si_ndr s I).
     + intros k c. rewrite clk_rm, rlk_rm. destruct (N.eqb_spec k id) as [->|Hn]; [discriminate|apply (si_rule s I)].
@@ -197,13 +197,13 @@ Proof.
     + intros c. rewrite in_drop_member. split.
       * intros [Hm Hg]. apply (si_mem s I) in Hm. destruct Hm as [k Hk]. exists k. rewrite clk_rm.
         destruct (N.eqb_spec k id) as [->|Hn]; [|exact Hk]. exfalso. apply Hg. congruence.
-      * intros [k Hk]. rewrite clk_rm in Hk. destruct (N.eqb_spec k id) as [->|Hn]; [discriminate|].
+      * intros [k Hk]. rewrite clk_rm in Hk. revert Hk. destruct (N.eqb_spec k id) as [->|Hn]; intros Hk; [discriminate|].
         split; [apply (si_mem s I); exists k; exact Hk|].
         intros Hg. apply Hn. apply (si_inj s I k id c c0 Hk E0 Hg).
     + intros g [<-|H]; [exact Hg0|]. apply (si_ended s I); exact H.
     + rewrite clk_rm. destruct (N.eqb reserved id); [reflexivity|apply (si_res s I)].
   - (* no client under the id: by the invariant there is no rule either, only Rules is touched *)
-    constructor; cbn [clients rules members ended nextgen]; try apply I.
+    constructor; cbn [set_maps clients rules members ended nextgen]; try apply I.
     + apply nodup_remove. apply (si_ndr s I).
     + intros k c H. rewrite rlk_rm. destruct (N.eqb_spec k id) as [->|Hn]; [congruence|apply (si_rule s I); exact H].
     + intros k r0. rewrite rlk_rm. destruct (N.eqb_spec k id) as [->|Hn]; [discriminate|apply (si_client s I)].
@@ -217,9 +217,10 @@ Proof.
   destruct H as (_ & Hc & Hr & Hn & Hm & Hd).
   constructor; cbn [set_maps clients rules members ended nextgen keys map lookup];
     try constructor; try (intros; discriminate).
-  - intros c. split; [|intros [id H]; discriminate]. intros H. exfalso. apply Hm in H. destruct H as [H1 H2].
+  - intros H. exfalso. apply Hm in H. destruct H as [H1 H2].
     apply (si_mem s I) in H1. destruct H1 as [id Hid]. apply H2. apply in_map. apply in_map_iff.
     exists (id, c). split; [reflexivity|apply lookup_in; exact Hid].
+  - intros [id H]; discriminate.
   - intros g H. rewrite Hn. apply Hd in H. destruct H as [H|H]; [apply (si_ended s I); exact H|].
     apply in_map_iff in H. destruct H as [c [<- H]]. apply in_map_iff in H. destruct H as [[id c'] [E H]].
     cbn in E; subst c'. apply (in_lookup_nodup _ _ _ (si_nd s I)) in H. apply (si_gen s I id c H).
